@@ -47,6 +47,21 @@ def memberName (n : List Char) : Bool :=
   | some a, some z => a.isAlphanum && z.isAlphanum && n.all nameChar
   | _, _ => false
 
+/-- `[name]` -/
+def bracket (n : List Char) : List Char := '[' :: n ++ [']']
+
+/-- JSON:API §"Query parameter families": a base name followed by zero or more `[name]` instances,
+    every name a member name. (The declarative grammar; `supportedKey` below decides it.) -/
+def ParamGrammar (k family : List Char) (names : List (List Char)) : Prop :=
+  k = family ++ names.flatMap bracket ∧ memberName family = true ∧ ∀ n ∈ names, memberName n = true
+
+/-- A parameter the server processes: grammatical, and its family is `page` or carries a non a-z
+    character (an implementation-specific family, which this handler ignores). Every other key must
+    be answered with 400. -/
+def Supported (k : List Char) : Prop :=
+  ∃ family names, ParamGrammar k family names ∧
+    (family = "page".toList ∨ ∃ c ∈ family, ¬ ('a' ≤ c ∧ c ≤ 'z'))
+
 /-- Parse `( '[' name ']' )*` to the end of the key; `none` = malformed. Fuel = remaining length. -/
 def groups : Nat → List Char → Option (List (List Char))
   | _, [] => some []
